@@ -797,17 +797,14 @@ func checkCompareSeq(p *Prog, r *Rule, cmp *ssa.Function) {
 			return
 		}
 	}
-	// The parts are strings that name themselves ("A.U", "B.R"), so that an implementation may test them for
-	// equality before it calls the comparator: parts the comparator calls different are different strings, parts
-	// it calls equal are tried both as different and as identical strings.
-	mk := func(epoch int64, up, rev string) *StructV {
+	mk := func(epoch int64, tag string) *StructV {
 		s := &StructV{F: make([]Val, st.NumFields())}
 		for i := range s.F {
 			s.F[i] = zeroVal(st.Field(i).Type())
 		}
 		s.F[fidx["Epoch"]] = epoch
-		s.F[fidx["Version"]] = up
-		s.F[fidx["Revision"]] = rev
+		s.F[fidx["Version"]] = OpaqueV{tag + ".U"}
+		s.F[fidx["Revision"]] = OpaqueV{tag + ".R"}
 		return s
 	}
 	results := []int64{-7, -1, 0, 1, 9}
@@ -818,91 +815,72 @@ func checkCompareSeq(p *Prog, r *Rule, cmp *ssa.Function) {
 	for _, ep := range [][2]int64{{0, 0}, {1, 1}, {0, 1}, {1, 0}, {2, 5}, {5, 2}, {math.MinInt64, 0}, {0, math.MinInt64}, {-1, 1}, {1, -1}, {math.MinInt64, math.MaxInt64}, {-1, math.MinInt64}} {
 		for _, ru := range results {
 			for _, rr := range results {
-				type variant struct{ sameU, sameR bool }
-				variants := []variant{{false, false}}
-				if ru == 0 {
-					variants = append(variants, variant{true, false})
-				}
-				if rr == 0 {
-					variants = append(variants, variant{false, true})
-				}
-				if ru == 0 && rr == 0 {
-					variants = append(variants, variant{true, true})
-				}
-				for _, vr := range variants {
-					m := NewMachine(p, nil)
-					installStringModels(m)
-					var calls []string
-					ru, rr := ru, rr
-					unexpected := ""
-					m.Hooks[cmp.String()] = func(m *Machine, st *State, call *ssa.CallCommon, args []Val) ([]Val, bool) {
-						a, _ := args[0].(string)
-						b, _ := args[1].(string)
-						calls = append(calls, a+"|"+b)
-						switch {
-						case a != "" && a == b:
-							return []Val{int64(0)}, true
-						case a+"|"+b == "A.U|B.U":
-							return []Val{ru}, true
-						case a+"|"+b == "A.R|B.R":
-							return []Val{rr}, true
-						}
-						unexpected = "comparator called with unexpected operands " + a + "," + b
-						return []Val{Unknown{Why: unexpected}}, true
-					}
-					bu, br := "B.U", "B.R"
-					if vr.sameU {
-						bu = "A.U"
-					}
-					if vr.sameR {
-						br = "A.R"
-					}
-					s0 := m.NewState(fn, []Val{mk(ep[0], "A.U", "A.R"), mk(ep[1], bu, br)}, 0)
-					out := m.Run(s0)
-					rows++
-					if unexpected != "" {
-						// Compare hands the comparator something else than the parts (rests after a common prefix, ...)
-						for _, o := range out {
-							if o.Status == stRet {
-								o.Status, o.Msg = stStuck, unexpected
-							}
-						}
-					}
-					want := 0
+				m := NewMachine(p, nil)
+				var calls []string
+				ru, rr := ru, rr
+				// an implementation may test two parts for equality before it calls the comparator: parts the
+				// comparator calls different are different, parts it calls equal may or may not be the same string
+				m.OpaqueEq = func(a, b string) (bool, bool) {
 					switch {
-					case uint64(ep[0]) > uint64(ep[1]):
-						want = 1
-					case uint64(ep[0]) < uint64(ep[1]):
-						want = -1
+					case a == b:
+						return true, true
+					case (a == "A.U" && b == "B.U" || a == "B.U" && b == "A.U") && ru != 0:
+						return false, true
+					case (a == "A.R" && b == "B.R" || a == "B.R" && b == "A.R") && rr != 0:
+						return false, true
 					}
-					if want == 0 {
-						want = sign(ru)
+					return false, false
+				}
+				m.Hooks[cmp.String()] = func(m *Machine, st *State, call *ssa.CallCommon, args []Val) ([]Val, bool) {
+					ao, _ := args[0].(OpaqueV)
+					bo, _ := args[1].(OpaqueV)
+					a, b := ao.Name, bo.Name
+					calls = append(calls, a+"|"+b)
+					switch a + "|" + b {
+					case "A.U|B.U":
+						return []Val{ru}, true
+					case "A.R|B.R":
+						return []Val{rr}, true
 					}
-					if want == 0 {
-						want = sign(rr)
-					}
-					desc := fmt.Sprintf("epochs %d,%d upstream-cmp %d revision-cmp %d", uint64(ep[0]), uint64(ep[1]), ru, rr)
-					for _, o := range out {
-						if o.Status != stRet {
-							// Compare looks into its operands itself (opaque operand tokens cannot be indexed): the bounded
-							// comparison of Compare as a whole decides the composition
-							why := desc + ": " + o.Msg + fmt.Sprint(calls)
-							switch b := compareWhole(p); {
-							case b.undecided != "":
-								r.undecided("version.Compare", p.Pos(fn.Pos()), why+"; bounded comparison of Compare: "+b.undecided)
-							case len(b.problems) > 0:
-								r.bad("version.Compare", p.Pos(fn.Pos()), b.problems[0], b.problems)
-							default:
-								r.ok("version.Compare", p.Pos(fn.Pos()), fmt.Sprintf("(bounded: Compare does more than compose its sub-comparisons: %s) Compare agrees in sign with the reference order on %d pairs of versions", clip(o.Msg, 80), b.pairs))
-							}
-							return
+					return []Val{Unknown{Why: "comparator called with unexpected operands " + a + "," + b}}, true
+				}
+				s0 := m.NewState(fn, []Val{mk(ep[0], "A"), mk(ep[1], "B")}, 0)
+				out := m.Run(s0)
+				rows++
+				want := 0
+				switch {
+				case uint64(ep[0]) > uint64(ep[1]):
+					want = 1
+				case uint64(ep[0]) < uint64(ep[1]):
+					want = -1
+				}
+				if want == 0 {
+					want = sign(ru)
+				}
+				if want == 0 {
+					want = sign(rr)
+				}
+				desc := fmt.Sprintf("epochs %d,%d upstream-cmp %d revision-cmp %d", uint64(ep[0]), uint64(ep[1]), ru, rr)
+				for _, o := range out {
+					if o.Status != stRet {
+						// Compare looks into its operands itself (opaque operand tokens cannot be indexed): the bounded
+						// comparison of Compare as a whole decides the composition
+						why := desc + ": " + o.Msg + fmt.Sprint(calls)
+						switch b := compareWhole(p); {
+						case b.undecided != "":
+							r.undecided("version.Compare", p.Pos(fn.Pos()), why+"; bounded comparison of Compare: "+b.undecided)
+						case len(b.problems) > 0:
+							r.bad("version.Compare", p.Pos(fn.Pos()), b.problems[0], b.problems)
+						default:
+							r.ok("version.Compare", p.Pos(fn.Pos()), fmt.Sprintf("(bounded: Compare does more than compose its sub-comparisons: %s) Compare agrees in sign with the reference order on %d pairs of versions", clip(o.Msg, 80), b.pairs))
 						}
-						got, ok := o.Ret.(int64)
-						if !ok || sign(got) != want {
-							bad++
-							if first == "" {
-								first = fmt.Sprintf("%s: result %v, expected sign %d (comparator calls: %v; the result depends on %v)", desc, o.Ret, want, calls, keys(o.Notes))
-							}
+						return
+					}
+					got, ok := o.Ret.(int64)
+					if !ok || sign(got) != want {
+						bad++
+						if first == "" {
+							first = fmt.Sprintf("%s: result %v, expected sign %d (comparator calls: %v; the result depends on %v)", desc, o.Ret, want, calls, keys(o.Notes))
 						}
 					}
 				}
